@@ -103,16 +103,14 @@ def main(tier, seed, replay=None):
             shutil.rmtree(tdir, ignore_errors=True)
             rootpid = [p for p, evs in raw.items() if any(e["e"] == "RunStart" for e in evs)][0]
             n_parent = len(raw[rootpid])
-            step = 1 if (tier == "thorough" or mode != "process") else 2
-            if tier == "quick" and mode == "j1":
-                step = 2
-            for k in range(0, n_parent + 2, step):
+            step = 1 if tier == "thorough" else (3 if mode == "j1" else 4)
+            for k in range(seed % step, n_parent + 2, step):
                 cases.append({"mode": mode, "role": "parent", "k": k, "ctx": ""})
             for pid, evs in raw.items():
                 if pid == rootpid:
                     continue
                 fname = [e["file"] for e in evs if e["e"] == "ChildStart"][0]
-                for k in range(0, len(evs) + 1, 1 if tier == "thorough" else 3):
+                for k in range(seed % 5 if tier == "quick" else 0, len(evs) + 1, 1 if tier == "thorough" else 5):
                     cases.append({"mode": mode, "role": "child", "k": k, "ctx": fname})
     runlayer.cleanup(root)
     if fresh["rc"] is None:
@@ -121,7 +119,7 @@ def main(tier, seed, replay=None):
     obs = []
     histories = []
     idx = {}
-    with concurrent.futures.ThreadPoolExecutor(max_workers=min(8, vlib.NCPU)) as ex:
+    with concurrent.futures.ThreadPoolExecutor(max_workers=min(6, vlib.NCPU)) as ex:
         futs = [(c, ex.submit(kill_case, c, fresh)) for c in cases]
         for i, (c, fu) in enumerate(futs):
             killed, after = fu.result()
@@ -143,7 +141,7 @@ def main(tier, seed, replay=None):
         snapshot = {fn: open(os.path.join(bd, fn), "rb").read() for fn in sorted(os.listdir(bd))}
         rnd = random.Random(seed)
         for fn, data in snapshot.items():
-            offs = sorted(set([0, 1, len(data) - 1, len(data) // 2] + [rnd.randrange(0, max(1, len(data))) for _ in range(6 if tier == "quick" else 30)]))
+            offs = sorted(set([0, 1, len(data) - 1, len(data) // 2] + [rnd.randrange(0, max(1, len(data))) for _ in range(3 if tier == "quick" else 30)]))
             for off in offs:
                 trunc_cases.append((fn, off))
         for j, (fn, off) in enumerate(trunc_cases):
